@@ -113,12 +113,23 @@ def r2_accounting(prog, rep: Report, fm: Cls, mp: Func):
         rep.check("C05.R2", f, "send", not probs, f"put(({i_name}, {c_name})) then {sent} += 1, once per chunk", "; ".join(probs),
                   scenario="a chunk is sent but not counted: its results are never waited for and are lost", line=sl.lineno)
     # emit loops
+    buf_names = {n.targets[0].id for n in f.node.body if isinstance(n, ast.Assign) and isinstance(n.targets[0], ast.Name)
+                 and isinstance(n.value, ast.Call) and isinstance(n.value.func, ast.Name)
+                 and getattr(prog.lookup_class(f.mod, n.value.func.id), "name", None) == "Buffer"}
     emits = [n for n in ast.walk(f.node) if isinstance(n, ast.For) and isinstance(n.iter, ast.Call) and isinstance(n.iter.func, ast.Name)
-             and n.iter.func.id == "buffer"]
+             and n.iter.func.id in buf_names]
     fin = None
+    sent_name = None
+    for sl_ in [n for n in f.node.body if isinstance(n, ast.For)]:
+        for st_ in sl_.body:
+            if isinstance(st_, ast.AugAssign) and isinstance(st_.target, ast.Name):
+                sent_name = st_.target.id
     for w in [n for n in f.node.body if isinstance(n, ast.While)]:
-        if isinstance(w.test, ast.Compare) and isinstance(w.test.left, ast.Name):
-            fin = w.test.left.id
+        if isinstance(w.test, ast.Compare) and len(w.test.ops) == 1:
+            names = [x.id for x in (w.test.left, w.test.comparators[0]) if isinstance(x, ast.Name)]
+            others = [x for x in names if x != sent_name]
+            if len(names) == 2 and len(others) == 1:
+                fin = others[0]
     if len(emits) < 2 or fin is None:
         rep.unrec("C05.R2", f, "emit", f"expected two `for ch in buffer(i, chunk)` loops and a `while finished < sent`, found {len(emits)}")
     else:
@@ -186,8 +197,7 @@ def r3_owed(prog, rep: Report, fm: Cls, mp: Func):
                         lp = p
                         break
                     p = getattr(p, "_parent", None)
-                owed = lp is not None and isinstance(lp.test, ast.Compare) and len(lp.test.ops) == 1 \
-                    and isinstance(lp.test.ops[0], (ast.Lt, ast.NotEq)) and "cnt" in src(lp.test.comparators[0]).lower()
+                owed = lp is not None and _owed_test(lp.test, f)
                 rep.check("C05.R3", f, f"get:blocking", owed, f"blocking get under `while {src(lp.test) if lp is not None else '?'}`",
                           "a blocking get on the results queue is not guarded by `finished < sent`: it waits for a result nobody owes",
                           scenario="input shorter than expected / empty input: the call blocks forever in get()", line=c.lineno)
@@ -197,6 +207,26 @@ def r3_owed(prog, rep: Report, fm: Cls, mp: Func):
                 rep.check("C05.R3", f, "get:nonblocking", h is not None, "non-blocking get inside a queue.Empty handler",
                           "queue.Empty of a non-blocking get is not handled", scenario="queue.Empty escapes to the caller",
                           line=c.lineno)
+
+
+def _owed_test(test, f: Func) -> bool:
+    """`finished < sent` in either orientation (or !=), where `sent` is the counter incremented next to the work puts"""
+    if not (isinstance(test, ast.Compare) and len(test.ops) == 1):
+        return False
+    sent = set()
+    for n in ast.walk(f.node):
+        if isinstance(n, ast.For):
+            has_put = any(isinstance(c, ast.Call) and queue_call(c) and queue_call(c)[0] == "put" for c in ast.walk(n))
+            if has_put:
+                for st in n.body:
+                    if isinstance(st, ast.AugAssign) and isinstance(st.target, ast.Name):
+                        sent.add(st.target.id)
+    l, r, op = test.left, test.comparators[0], test.ops[0]
+    if isinstance(r, ast.Name) and r.id in sent and isinstance(op, (ast.Lt, ast.NotEq)):
+        return True
+    if isinstance(l, ast.Name) and l.id in sent and isinstance(op, (ast.Gt, ast.NotEq)):
+        return True
+    return False
 
 
 def r4_sorted(prog, rep: Report, mp: Func):
